@@ -17,6 +17,7 @@ class Ctx:
         self.samples = []; self.violations = []; self.known = []; self.notes = []
         self.tlc_runs = []; self.minima = []; self.extra = {}
         self.assumptions = []
+        self.exhaustive = pid in ("C02", "C06", "C07", "C08", "C09", "C10", "C14", "C15", "C16", "C17", "C18", "C19", "C20")
         with open(os.path.join(V, "known-findings.json")) as f:
             self.kf = json.load(f)
 
@@ -161,7 +162,7 @@ class Ctx:
         for m in self.minima:
             if m["got"] < m["min"]:
                 raise Machinery("vacuity guard: %s = %d < %d" % (m["what"], m["got"], m["min"]))
-        EV = os.path.join(V, "evidence") if not vlib.ALT else os.path.join(vlib.WORK, "alt-evidence")
+        EV = os.path.join(V, "evidence") if not (vlib.ALT or self.pid == "selftest") else os.path.join(vlib.WORK, "alt-evidence")
         RP = os.path.join(V, "replays") if not vlib.ALT else os.path.join(vlib.WORK, "alt-replays", os.path.basename(vlib.BIN))
         os.makedirs(EV, exist_ok=True)
         os.makedirs(RP, exist_ok=True)
@@ -183,8 +184,14 @@ class Ctx:
                    evaluations=self.evaluations + self.records, distinct_nontrivial=self.nontrivial,
                    samples=self.samples or [dict(note="no sample recorded")],
                    oracle_records_replayed=self.records, drift=self.drift, tlc_runs=self.tlc_runs,
-                   exhaustive=True, rule=self.extra.pop("rule", ""), notes=self.notes, minima=self.minima)
+                   exhaustive=self.exhaustive, exhaustive_note=("every enumeration named in 'rule' was run to completion within its bounds" if self.exhaustive else
+                                "bounded enumerations run to completion, plus seeded samples (light schedule mode, near-miss variants, random trace schedules)"),
+                   rule=self.extra.pop("rule", ""), notes=self.notes, minima=self.minima)
         cov.update(self.extra)
+        if not self.assumptions:
+            self.assumptions = ["TLC 1.8 / the TLA+ modules in spec/ faithfully state what is claimed in 'rule' (drift 0 against the code on every replayed record)",
+                                "the Go harness projects exported fields correctly (harness/obs.go) and the Go toolchain executes the library as it would in production",
+                                "bounds as stated in 'rule'; behaviour beyond them is not covered"]
         ev = dict(property_id=self.pid, tier=self.tier, seed=self.seed, level="model_checking", coverage=cov,
                   assumptions=self.assumptions, wall_s=round(wall, 1), violations=len(self.violations),
                   known_findings=[k["id"] for k in self.known])
@@ -230,6 +237,7 @@ ATOMS = dict(
     tokparam=[SP, HT, CR, LF, B("a"), B("="), B(";"), B("&"), B(","), B("?"), B("\""), B("\\"), B("@"), [200]],
     tokparam_deep=[SP, CR, B("a"), B("="), B(";"), B("&"), B("\"")],
     nameaddr_deep=[SP, CR, B("a"), B("<b>"), B(";"), B("="), B("\""), B(",")],
+    nameaddr_quoted=[B("\""), B("\\"), B("a"), B("<b>"), CR, B(";"), SP],
     hdrnum=[SP, CR, LF, B("l:"), B("Expires:"), B("CSeq:"), B("123456789"), B("0"), B("9"), B(" ACK"), B("x")],
     quoted=[SP, CR, LF, B("a"), B("\""), B("\\"), [127], [1], [200]],
 )
@@ -251,6 +259,7 @@ def cfgs_sub(start=(0,)):
     fam.append(("hdrnum", "hdrnum", st([k("hdrlineb", ccap=1), k("headersb", hcap=1, ccap=0)]), 4, 5))
     fam.append(("nameaddr", "nameaddr", st([k("nameaddr", flags=h) for h in (1, 8, 13)] + [k("onepai")]), 4, 5))
     fam.append(("nameaddr_deep", "nameaddr_deep", st([k("nameaddr", flags=h) for h in (2, 8)]), 6, 8))
+    fam.append(("nameaddr_quoted", "nameaddr_quoted", st([k("nameaddr", flags=h) for h in (1, 13)] + [k("contacts", ccap=1)]), 7, 8))
     fam.append(("contacts", "contacts", st([k("contacts", ccap=c) for c in (0, 1, 2)] + [k("pais")]), 5, 6))
     fam.append(("tokparam", "tokparam", st([k("tokparam", flags=f) for f in F_TOK]), 4, 5))
     fam.append(("tokparam_deep", "tokparam_deep", st([k("tokparam", flags=f) for f in F_TOK]), 6, 8))
